@@ -167,6 +167,7 @@ type CheckpointResult struct {
 	Checkpoints          []uint64 `json:"checkpoints"`
 	Writes               int      `json:"writes"`
 	OfflineRecreations   int      `json:"recreationsWhileStopped"`
+	FutureImports        int      `json:"importsWithFutureCas"`
 	FinalVersionsChecked int      `json:"finalVersionsChecked"`
 }
 
@@ -339,6 +340,21 @@ func CheckpointRun(m *MultiBucket, writers, opsEach, keys, restarts int, r *rng.
 			}
 		}
 		pending = keep
+		if r.Chance(1, 3) {
+			// a replicated document arrives whose CAS is ten minutes ahead of everything seen so far: regular writes made
+			// after it must still get larger CAS values, or a resume from a checkpoint at that CAS would skip them
+			ahead := maxDelivered
+			if now := uint64(time.Now().UnixNano()); now > ahead {
+				ahead = now
+			}
+			if _, c0, e0 := col.GetRaw("k0"); e0 == nil && c0 > ahead {
+				ahead = c0
+			}
+			ahead = (ahead+600e9)&^0xFFFF | 0x8001
+			if col.SetWithMeta(ctxBG, fmt.Sprintf("imported%d", i), 0, ahead, 0, nil, []byte(`{"imported":true}`), sgbucket.FeedDataTypeJSON) == nil {
+				res.FutureImports++
+			}
+		}
 		for j := 0; j < 2; j++ {
 			k := fmt.Sprintf("off%d_%d", i, j)
 			if col.Set(k, 0, nil, []byte(`{"first":1}`)) != nil {
